@@ -58,12 +58,12 @@ def run(prop, cfg, tier, seed):
                     for tl, rel in cfg["twins"](cl, c):
                         alll.append(tl)
                         twin_pairs.append((cl, tl, rel))
-            h1.run_stream(wd, header, alll, cfg["proj"], cfg.get("oracles"), sr, tag)
+            h1.run_stream(wd, header, alll, cfg["proj"], cfg.get("oracles"), sr, tag, spec_fields=cfg.get("spec_fields"))
 
     # corpus (minimised past failures) runs too
     corpus = findings.corpus_cases(prop)
     if corpus and header:
-        h1.run_stream(wd, header, corpus, cfg["proj"], cfg.get("oracles"), sr, "corpus")
+        h1.run_stream(wd, header, corpus, cfg["proj"], cfg.get("oracles"), sr, "corpus", spec_fields=cfg.get("spec_fields"))
 
     # ---- twin relations (evaluated on the implementation's results)
     twin_checked = 0
@@ -192,6 +192,7 @@ def run(prop, cfg, tier, seed):
         "inconclusive_both_nonterminating_or_fuel": sr.inconclusive,
         "divergences_outside_this_property_projection": sr.unattributed,
         "twin_pairs_checked": twin_checked,
+        "cases_compared_with_independent_specification": sr.stats.get("spec_compared", 0),
         "known_finding_hits": sr.known,
         "result_kinds": sr.kinds,
         "streams": [{"profile": p, "n_per_seed": (nq if tier == "quick" else max(nq, nt // len(seeds))), "seeds": seeds} for (p, nq, nt) in cfg["streams"]],
@@ -236,4 +237,8 @@ def differs(prop, cfg, casefile):
         for v in orc(cl, ir) or ():
             if v[0] == "viol":
                 return 0
+    if cfg.get("spec_fields"):
+        sl = core.run_model_lines(header, [cl], spec=True)[0]
+        if sl.split(" ", 3)[2] in ("ok", "fail", "panic") and core.spec_compare(ir, core.parse_spec(sl), cfg["spec_fields"]):
+            return 0
     return 1
